@@ -454,6 +454,8 @@ async def _tx_session(spec, sess):
         "sends_done": [t.done() for t in tasks],
         "rx_alive": bool(client._receive_task and not client._receive_task.done()),
         "consumer_alive": not client._process_queue_task.done(),
+        # writes whose failure the transport would have reported through drain() - and nobody asked
+        "undrained_faults": [[n_, e_.get("d")] for n_, e_ in sess.pending_drain.items() if e_.get("d") in ("raise", "susp_raise")],
     }
     sess.ev(["end"])
     if spec.get("probe") and spec.get("close_after") is None:
